@@ -46,6 +46,13 @@ func (c *CircuitFixed) Define(api frontend.API) error {
 	if len(publicInputs) != 16 {
 		return fmt.Errorf("expected 16 public inputs, got %d", len(publicInputs))
 	}
+	// Each plonky2 public input is one 32-bit limb of the on-chain values. The verifier only uses the
+	// limbs modulo the Goldilocks prime, so without this bound limb + k*p would pack into a
+	// different on-chain value for the same inner proof.
+	glChip := gl.New(api)
+	for _, publicInput := range publicInputs {
+		glChip.RangeCheckWithMaxBits(publicInput, 32)
+	}
 	for j := 0; j < 4; j++ {
 		publicInputLimb := frontend.Variable(0)
 		slicePub := publicInputs[j*4 : (j+1)*4]
